@@ -226,6 +226,7 @@ func mergedLogsHarness(k int, kinds bool, suppress bool) {
 	}
 	it, err := m.SeekLog(sk.RefName, sk.UpdateIndex)
 	VerifAssert(err == nil, "seek-err")
+	var reused LogRecord
 	for i := range want {
 		if specLogLess(&want[i], sk) {
 			continue
@@ -233,17 +234,19 @@ func mergedLogsHarness(k int, kinds bool, suppress bool) {
 		if m.suppressDeletions && specLogIsDeletion(&want[i]) {
 			continue
 		}
-		var got LogRecord
-		ok, err := it.NextLog(&got)
+		if !kinds {
+			reused = LogRecord{} // a fresh record per call; with deletions in play the caller's record is reused instead
+		}
+		got := &reused
+		ok, err := it.NextLog(got)
 		VerifAssert(err == nil && ok, "merged-short")
 		if !ok || err != nil {
 			return
 		}
 		VerifAssert(got.RefName == want[i].RefName && got.UpdateIndex == want[i].UpdateIndex, "merged-key")
-		VerifAssert(logEq(&got, &want[i]), "merged-newest-wins")
+		VerifAssert(logEq(got, &want[i]), "merged-newest-wins")
 	}
-	var got LogRecord
-	ok, err := it.NextLog(&got)
+	ok, err := it.NextLog(&reused)
 	VerifAssert(err == nil && !ok, "merged-extra")
 	VerifCover("done")
 }
@@ -256,7 +259,7 @@ func Harness_C03_logs() {
 }
 
 // Harness_C03_logs_deletions: reflog deletion records hide older entries; the stack view drops them.
-// bounds: 1..2 stub tables, subsets as above, every entry a record or a deletion; both views
+// bounds: 1..2 stub tables, subsets as above, every entry a record or a deletion; both views; the caller reads every entry into one and the same LogRecord
 // covers: done
 func Harness_C03_logs_deletions() {
 	mergedLogsHarness(VerifIntRange(1, 2), true, VerifChoose(2) == 1)
